@@ -119,3 +119,29 @@ Example C01_skeleton_example_bad :
   skeleton_cex Dedupe 2 [] [BAtom 0; BAtom 1] (sk2 false)
   = Some {| v_atoms := [U; T]; v_parts := []; v_idlt := true; v_sdsne := true; v_sdslt := true |}.
 Proof. vm_compute. reflexivity. Qed.
+
+(* predict()'s two-dataset fast path (split into the rows of the least and of the greatest
+   source dataset, joined with WHERE 1=1) produces exactly the link_only pairs of the whole
+   table, with the same match keys, when there are exactly two datasets and composite ids are
+   ordered by dataset first *)
+Theorem C01_two_dataset_split_equiv :
+  forall (rec : Type) (ds : rec -> nat) (idlt : rec -> rec -> bool) (a b : nat) (All : list rec),
+    a < b ->
+    (forall x, In x All -> ds x = a \/ ds x = b) ->
+    (forall l r, In l All -> In r All -> ds l < ds r -> idlt l r = true) ->
+    (forall l r, idlt l r = true -> idlt r l = false) ->
+    forall (rules : list (rec -> rec -> tv)) n l r,
+      In (n, (l, r)) (block (adm_link_only rec ds idlt) rules All All) <->
+      In (n, (l, r)) (block (adm_all rec) rules (part rec ds All a) (part rec ds All b)).
+Proof. intros. apply two_dataset_split_equiv; assumption. Qed.
+Print Assumptions C01_two_dataset_split_equiv.
+
+(* with a third dataset the fast path would lose pairs: non-vacuity of the hypothesis *)
+Example C01_two_dataset_needs_two :
+  let ds := fun x : nat => x / 10 in
+  let idlt := Nat.ltb in
+  let All := [1; 11; 21] in
+  let rule := fun _ _ : nat => T in
+  length (block (adm_link_only nat ds idlt) [rule] All All) = 3 /\
+  length (block (adm_all nat) [rule] (part nat ds All 0) (part nat ds All 2)) = 1.
+Proof. vm_compute. split; reflexivity. Qed.
